@@ -250,18 +250,43 @@ func (fr *Frame) locLoad(l *Loc, st *State, pos token.Pos) Term {
 	if l.Cell == nil && !fr.pure && len(vc.defScopes) == 0 {
 		// A heap that has not been written since entry holds only references
 		// to objects that existed at entry.
-		alloc := vc.allocTerm(st)
-		hn := vc.ss.HeapName(l.Root)
-		if e, ok := vc.entryHeaps[hn]; ok && vc.alloc0.S != "" {
-			if cur, ok2 := st.heaps[hn]; !ok2 || cur.S == e.S {
-				alloc = vc.alloc0
-			}
-		}
+		alloc := fr.wfBound(l, st)
 		if wf := vc.wfValueA(v, l.Type, alloc, 0); wf.S != "true" {
 			st.Assume(wf)
 		}
+	} else if l.Cell == nil && fr.pure && vc.wfCollect != nil && len(vc.defScopes) == 0 {
+		alloc := fr.wfBound(l, st)
+		if wf := vc.wfValueA(v, l.Type, alloc, 0); wf.S != "true" {
+			*vc.wfCollect = append(*vc.wfCollect, Implies(st.reach, wf))
+		}
 	}
 	return v
+}
+
+// wfBound: the allocation bound below which everything reachable from a
+// value loaded from l lies. A heap that has not been written since entry holds,
+// in the objects that existed at entry, only references to objects that existed
+// at entry; objects a callee allocated meanwhile live in the same heap term and
+// may refer to anything allocated so far.
+func (fr *Frame) wfBound(l *Loc, st *State) Term {
+	vc := fr.vc
+	alloc := vc.allocTerm(st)
+	hn := vc.ss.HeapName(l.Root)
+	if e, ok := vc.entryHeaps[hn]; ok && vc.alloc0.S != "" {
+		if cur, ok2 := st.heaps[hn]; !ok2 || cur.S == e.S {
+			var arr Term
+			if l.Slice != nil {
+				arr = SArr(*l.Slice)
+			} else {
+				arr = PArr(l.Ptr)
+			}
+			if alloc.S == vc.alloc0.S {
+				return vc.alloc0
+			}
+			return Ite(Lt(arr, vc.alloc0), vc.alloc0, alloc)
+		}
+	}
+	return alloc
 }
 
 func (fr *Frame) locStore(l *Loc, st *State, v Term, pos token.Pos) {
@@ -495,7 +520,7 @@ func isQuantIntrinsic(f *ssa.Function) bool {
 		n = o.Name()
 	}
 	switch n {
-	case "forall", "exists", "forallStr", "existsStr", "forallInt", "existsInt":
+	case "forall", "exists", "forallStr", "existsStr", "forallInt", "existsInt", "forallProbe":
 		return true
 	}
 	return false
